@@ -1,7 +1,7 @@
 (* Model/Dispatch.v — one integer-list interface over all executable models,
    used by the extracted OCaml driver and by the in-kernel cases.v sample. *)
 From Coq Require Import ZArith List Bool.
-From Verif Require Import Base.Word64 Model.Sketch Model.Expiry Model.Wheel Model.Policy Model.Store Model.Ring Model.Flight Model.Persist Model.Shard Model.RBMutex Model.Bloom Model.DList Model.Flags Model.Counter.
+From Verif Require Import Base.Word64 Model.Sketch Model.Expiry Model.Wheel Model.Policy Model.Store Model.Ring Model.Flight Model.Persist Model.Shard Model.RBMutex Model.Bloom Model.DList Model.Flags Model.Counter Model.CloseFine.
 Import ListNotations.
 Open Scope Z_scope.
 
@@ -20,9 +20,10 @@ Inductive mstate :=
 | MDList (l : dlist)
 | MFlags (f : flags)
 | MCounter (c : counter)
+| MCloseFine (c : cfine)
 | MNone.
 
-(* model ids: 1 sketch, 2 expiry arithmetic, 3 timer wheel, 4 eviction policy, 5 store pipeline, 6 read ring, 7 singleflight, 8 persistence, 9 key addressing (shards), 10 reader-biased mutex, 11 doorkeeper, 12 intrusive list, 13 packed policy flags, 14 striped counter *)
+(* model ids: 1 sketch, 2 expiry arithmetic, 3 timer wheel, 4 eviction policy, 5 store pipeline, 6 read ring, 7 singleflight, 8 persistence, 9 key addressing (shards), 10 reader-biased mutex, 11 doorkeeper, 12 intrusive list, 13 packed policy flags, 14 striped counter, 15 Close shard by shard *)
 Definition m_init (model : Z) (cfg : list Z) : mstate :=
   match model with
   | 1 => MSketch (sk_init cfg)
@@ -39,6 +40,7 @@ Definition m_init (model : Z) (cfg : list Z) : mstate :=
   | 12 => MDList (dl_init cfg)
   | 13 => MFlags (flg_init cfg)
   | 14 => MCounter (cnt_init cfg)
+  | 15 => MCloseFine (cfi_init cfg)
   | _ => MNone
   end.
 
@@ -58,6 +60,7 @@ Definition m_step (m : mstate) (op : list Z) : mstate * list Z :=
   | MDList l => let '(l', o) := dl_step l op in (MDList l', o)
   | MFlags f => let '(f', o) := flg_step f op in (MFlags f', o)
   | MCounter c => let '(c', o) := cnt_step c op in (MCounter c', o)
+  | MCloseFine c => let '(c', o) := cfi_step c op in (MCloseFine c', o)
   | MNone => (MNone, [-999])
   end.
 
